@@ -116,6 +116,49 @@ class Stream:
         pass
 
 
+class Page:
+    """A closeable class-based async iterator that KEEPS its records (a cursor, a result page, an adapter)."""
+
+    def __init__(self, items):
+        self.items, self.i, self.closed = items, 0, 0
+
+    def __aiter__(self):
+        return self
+
+    async def __anext__(self):
+        if self.i >= len(self.items):
+            raise StopAsyncIteration
+        self.i += 1
+        return self.items[self.i - 1]
+
+    async def aclose(self):
+        self.closed += 1
+        return True
+
+
+class PageStream:
+    """A long lazy stream of pages of ``size`` fresh items each."""
+
+    def __init__(self, census, n, size=5, sync_pages=False):
+        self.census, self.n, self.size, self.i, self.sync_pages = census, n, size, 0, sync_pages
+
+    def __aiter__(self):
+        return self
+
+    async def __anext__(self):
+        self.census.sample(f"pull of page starting at {self.i}")
+        if self.i >= self.n:
+            raise StopAsyncIteration
+        items = [W(k) for k in range(self.i, min(self.n, self.i + self.size))]
+        self.i += self.size
+        for x in items:
+            self.census.track(x)
+        return iter(items) if self.sync_pages else Page(items)
+
+    async def aclose(self):
+        pass
+
+
 # name -> (nsources, window, build(streams, n) -> async iterator or awaitable, kind)
 def _tools():
     T = {}
@@ -134,6 +177,9 @@ def _tools():
     T["batched17"] = (1, 17, lambda S, n: A.batched(S[0], 17), "iter", {})
     T["chain"] = (2, 0, lambda S, n: A.chain(*S), "iter", {})
     T["chain_from_iterable"] = (2, 0, lambda S, n: A.chain.from_iterable(S), "iter", {})
+    # a long lazy stream of inner iterables, each a closeable object that keeps its records / a plain iterator
+    T["chain_from_iterable_pages"] = (1, 10, lambda S, n: A.chain.from_iterable(S[0]), "iter", {"pages": "class"})
+    T["chain_from_iterable_sync_pages"] = (1, 10, lambda S, n: A.chain.from_iterable(S[0]), "iter", {"pages": "sync"})
     T["compress"] = (1, 0, lambda S, n: A.compress(S[0], [i % 2 for i in range(n)]), "iter", {})
     T["dropwhile"] = (1, 0, lambda S, n: A.dropwhile(lambda x: x.key < n // 2, S[0]), "iter", {})
     T["takewhile"] = (1, 0, lambda S, n: A.takewhile(always, S[0]), "iter", {})
@@ -194,6 +240,8 @@ def run_tool(case, stats):
     if opt.get("falsy"):
         make = lambda i: W(i, truth=False)  # noqa: E731
     streams = [Stream(census, n if not (opt.get("uneven") and s) else n // 2, make, f"s{s}") for s in range(nsrc)]
+    if opt.get("pages"):
+        streams = [PageStream(census, n, 5, sync_pages=opt["pages"] == "sync")]
     produced = {"n": 0}
 
     async def main():
